@@ -125,11 +125,12 @@ class Decoder(Coder):
                 parameter.value = self.process_template_data(bufr_message, bit_reader)
             elif parameter.nbits == 0:
                 # Zero number of bits means to read all bits till the end of the section
-                parameter.value = bit_reader.read(
-                    parameter.type,
-                    section.section_length.value * NBITS_PER_BYTE -
-                    (bit_reader.get_pos() - section.get_metadata(BITPOS_START))
-                )
+                nbits_to_end = (section.section_length.value * NBITS_PER_BYTE -
+                                (bit_reader.get_pos() - section.get_metadata(BITPOS_START)))
+                if nbits_to_end < 0:
+                    raise PyBufrKitError('Read exceeds declared section {} length: {} by {} bits'.format(
+                        section.get_metadata('index'), section.section_length.value, -nbits_to_end))
+                parameter.value = bit_reader.read(parameter.type, nbits_to_end)
             else:
                 parameter.value = bit_reader.read(parameter.type, parameter.nbits)
 
